@@ -103,4 +103,82 @@ theorem lwalk_dir_nil_comp (kids : List (Str × Node)) (cs : List Str) :
     lwalk (.dir kids) ([] :: cs) = lwalk (.dir kids) cs := by
   simp [lwalk]
 
+/-! ## paths without a climbing component -/
+
+/-- no `..` component after `getfspath`'s trailing-slash strip -/
+def NoClimb (p : Str) : Prop := ∀ c ∈ splitOn 47 (stripSlash p), c ≠ [46, 46]
+
+theorem noClimb_of_secure {fb : List Str} {s : Str} (hs : secureB fb s = true)
+    (hdd : [46,46] ∈ fb) (hnul : [0] ∈ fb) : NoClimb s := by
+  intro c hc
+  have hsec := secure_infix_closed hs (stripSlash_prefix s).isInfix
+  exact (secure_components hsec hdd hnul c hc).1
+
+/-- **The kernel's `stat` below the root.**  If the configured root path resolves to the
+    directory `R = .dir kids`, then for every absolute selector without a `..` component the
+    object the kernel reaches from `/` through `root + selector` is the object reached by
+    descending from `R` — whatever the rest of the file system `W` contains. -/
+theorem kstat_eq_statAt (W : Node) (rootStr : Str) (anc : List Node) (kids : List (Str × Node))
+    (hroot : kwalk [] W (splitOn 47 rootStr) = some (anc, .dir kids))
+    (p : Str) (hh : p.head? = some 47) (hn : NoClimb p) :
+    kstat W rootStr p = statAt (.dir kids) p := by
+  unfold kstat statAt
+  split
+  · rfl
+  · have hne : p ≠ [] := by intro h; simp [h] at hh
+    rw [stripSlash_append rootStr p hne]
+    unfold selComps
+    rcases stripSlash_of_head_slash p hh with h0 | ⟨t, ht⟩
+    · rw [h0, List.append_nil, hroot]
+      simp [splitOn, lwalk]
+    · have hn' : ∀ c ∈ splitOn 47 t, c ≠ [46, 46] := by
+        intro c hc
+        apply hn c
+        rw [ht, splitOn_cons_sep]
+        exact List.mem_cons_of_mem _ hc
+      rw [ht, splitOn_append_sep, kwalk_append, hroot, splitOn_cons_sep, lwalk_dir_nil_comp]
+      simp only [Option.bind_some]
+      exact kwalk_no_dotdot _ hn' _ _
+
+theorem noClimb_append_gophermap (s : Str) (h : ∀ c ∈ splitOn 47 s, c ≠ [46, 46]) :
+    NoClimb (s ++ lit "/gophermap") := by
+  have e1 : lit "/gophermap" = 47 :: lit "gophermap" := by decide
+  have e2 : stripSlash (lit "/gophermap") = lit "/gophermap" := by decide
+  have e3 : splitOn 47 (lit "gophermap") = [lit "gophermap"] := by decide
+  intro c hc
+  rw [stripSlash_append s _ (by decide), e2, e1, splitOn_append_sep, e3] at hc
+  rcases List.mem_append.mp hc with hc | hc
+  · exact h c hc
+  · simp at hc; subst hc; decide
+
+/-! ## population keeps the selector -/
+
+theorem handleEaExt_selector (ea : List (Str × Str)) (read : Str → Option (List Str)) : ∀ (x : Entry),
+    (handleEaExt ea read x).selector = x.selector := by
+  unfold handleEaExt
+  induction ea with
+  | nil => intro x; rfl
+  | cons kv r ih =>
+    intro x
+    simp only [List.foldl_cons]
+    rw [ih]
+    obtain ⟨ext, blk⟩ := kv
+    simp only
+    split
+    · rfl
+    · split <;> rfl
+
+theorem populateWith_selector (ea : List (Str × Str)) (dm : Str) (pi : PopInfo) (e : Entry) :
+    (populateWith ea dm pi e).selector = e.selector := by
+  unfold populateWith populate
+  split
+  · rfl
+  · split
+    · rfl
+    · simp only
+      split
+      · rw [handleEaExt_selector]
+      · simp only []
+        split <;> (try split) <;> simp [handleEaExt_selector]
+
 end Pyg
